@@ -329,7 +329,7 @@ theorem criterion_busts (c : Cfg ℚ) (s : St ℚ) (v : Verdict) (hc : v.crit = 
   unfold iterOk
   simp only [calcH]
   apply nextBusted_mono
-  unfold doSwitch
+  unfold doSwitch' customSwitch doSwitch
   split
   · split_ifs <;> simp [hc]
   · simp [hc]
